@@ -22,7 +22,7 @@ META = {
     "level_note": "Proof is on the calculus, not on local.py itself (hand model + correspondence). The calculus has scalar "
                   "variables, one-argument functions, a single module; module ownership (uses/initializes), struct/array "
                   "paths, raw_call flag analysis, and iterator mutation through internal calls are outside it. Termination "
-                  "within a computed fuel and the loop-bound theorem are not proved (acyclicity is).",
+                  "within a computed fuel is not proved (acyclicity of the call graph and the loop-bound property are).",
     "technique": "Coq proof over a hand-written calculus + generated-program differential against the real front end + EVM execution",
 }
 
@@ -165,8 +165,8 @@ def run(ctx):
     else:
         nvalid, per_prog = 36, 9
 
-    b = ctx.coq_build(["C11/Effects.v", "C11/EffectsSound.v", "C11/EffectsReject.v", "C11/PropsEffects.v"])
-    model_ok = b["ok"] or "Effects.v" not in b.get("file", "") or "EffectsSound" in b.get("file", "") or "EffectsReject" in b.get("file", "")
+    b = ctx.coq_build(["C11/Effects.v", "C11/EffectsSound.v", "C11/EffectsPure.v", "C11/EffectsReject.v", "C11/PropsEffects.v"])
+    model_ok = b["ok"] or not b.get("file", "").endswith("/Effects.v")
 
     ext_code = compile_full(G.EXT_SRC, front)
     if isinstance(ext_code, Exception):
